@@ -37,6 +37,7 @@ RULE_TEXT = {
     "FWD-1": "comparison / hashing / formatting / borrowing impls forward to the same method on the value, operands in order, result unchanged, no side effects",
     "ITER-1": "loops over hash-ordered collections and the worklist leave only through exhaustion; closures of search adaptors are effect-free",
     "ITER-2": "inside a loop over a hash-ordered collection, counters / link tables / contents are only written on the box named by the element being visited (or local accumulators)",
+    "ITER-3": "no order-sensitive adaptor or consumer (take/skip/take_while/skip_while/step_by/nth/last/rev/enumerate/zip/position/min_by/max_by ...) is applied to an iterator over a hash-ordered container",
     "ITER-4": "addresses are never ordered (only ==, != and hashing)",
     "ITER-5": "no group-sized loop or linear scan is nested in a group-sized loop",
     "CG-1": "the crate's call graph is acyclic",
@@ -48,13 +49,13 @@ PROPS = {
     "C03": ["GATE-5", "GATE-6", "GATE-8", "GATE-9", "GATE-10", "ITER-1", "EFF-4", "PROV-1", "TS-5", "SYM-1", "SYM-2", "SYM-3"],
     "C04": ["TS-3", "TS-4", "TS-5", "SYM-4"],
     "C05": ["TS-2", "TS-3", "TS-4", "TS-7", "TS-8", "TS-9", "GATE-5", "EFF-2", "API-1"],
-    "C06": ["EFF-2", "EFF-3", "EFF-4", "TS-8", "TS-9", "PROV-1", "GATE-4", "GATE-6"],
+    "C06": ["EFF-2", "EFF-3", "EFF-4", "TS-8", "TS-9", "PROV-1", "GATE-4", "GATE-6", "API-1"],
     "C07": ["FWD-1", "API-1", "TS-6", "TS-7", "TS-8", "TS-9", "GATE-3"],
     "C08": ["SYM-1", "SYM-2", "SYM-3", "SYM-4", "EFF-4"],
-    "C09": ["ITER-1", "ITER-2", "ITER-4", "TS-2"],
+    "C09": ["ITER-1", "ITER-2", "ITER-3", "ITER-4", "TS-2"],
     "C10": ["BRW-1", "BRW-2", "BRW-3", "TS-2", "TS-3", "SYM-3"],
     "C11": ["UNW-1", "TS-2", "TS-6", "BRW-1"],
-    "C12": ["KILL-1", "EFF-2", "TS-1", "TS-9"],
+    "C12": ["KILL-1", "EFF-2", "TS-1", "TS-9", "SYM-3"],
     "C14": ["GATE-2", "GATE-3", "SYM-2", "SYM-4"],
     "C15": ["CG-1", "GATE-1", "GATE-9", "ITER-5"],
     "C16": ["TS-7", "GATE-1", "EFF-2"],
@@ -63,6 +64,9 @@ PROPS = {
 # API-1 keys relevant per property (API-1 covers many functions; C05 only cares about Weak clauses)
 API_FILTER = {
     "C05": ("upgrade", "Weak::", "downgrade"),
+    # identity and count clauses: raw-pointer round trips name the same allocation, ptr_eq is pointer equality,
+    # increment/decrement_strong_count move the count by exactly one, up/downgrade stay on the same object
+    "C06": ("from_raw", "not-inverse", "not-value-address", "not-pointer-equality", "handle-not-forgotten", "increment_strong_count", "decrement_strong_count", "other-object"),
 }
 
 NOT_APPLICABLE = {
